@@ -1,13 +1,67 @@
-"""C11 — every MDIB lookup always agrees with a scan of the stored objects (stub: translator only, being built)."""
+"""C11 — every MDIB lookup always agrees with a scan of the stored objects; a rejected insertion is a no-op.
+
+Tie to the source
+  * translator: the index definitions (class, index_none_values, order, name) of `DescriptorsLookup()`, `StatesLookup()`,
+    `MultiStatesLookup()` and the subscriptions table are introspected from the running code and written to
+    `Generated/IndexDefs.lean`; `Properties/C11.lean` proves the instance facts about them by `decide`.
+  * correspondence (i): the real `MultiKeyLookup` with a dummy object class and arbitrary index sets is driven with the
+    same operations as the Lean model (`drv_c11`); after every operation the result class and the complete content of
+    `_objects`, every index dict and `_object_ids` are compared. Random sequences + exhaustive small scope.
+  * (ii) oracle `mk_oracle.table_problems` on the real MDIB tables after every random provider transaction and after every
+    report the consumer processed (harness/loopback.py), and on the subscription tables of a running provider.
+"""
 from __future__ import annotations
 
+import hashlib
+import itertools
+import json
+import multiprocessing
+import os
+import random
+import subprocess
+import traceback
+from collections import Counter
+from decimal import Decimal
 from unittest import mock
 
 import core
+import mk_oracle
 
-READY = False
+READY = True
+MANIFEST = dict(
+    technique='Lean 4 invariant proof over a transcribed model of MultiKeyLookup (all index-definition lists, all operation '
+              'histories incl. rejected operations); translator regenerates the index definitions of the real tables; '
+              'differential run model vs. real table after every operation (random + exhaustive small scope); scan oracle '
+              'on the real provider/consumer MDIB tables',
+    text='Theorems (Properties/C11.lean): for every list of index definitions and every history of set-attributes / add / '
+         'remove / update / clear / plural operations (rejected ones included) every index list holds exactly the stored '
+         'objects whose key set contains the key (with multiplicity), _object_ids is exact, unique indices hold at most one '
+         'object per key, a rejected add leaves objects, all index dicts and _object_ids unchanged, a rejected update keeps '
+         'the last accepted indexing; get / in / get_one equal a scan. The model is compared with the real MultiKeyLookup '
+         'after every operation; the index definitions of the MDIB tables and the subscription table are regenerated.',
+    note='Trusted: Lean kernel; translator + harness; Python set/dict/list.remove semantics; key values hashable. The '
+         'invariant relates the indices to the key values at the last accepted (re-)index; that the MDIB code re-indexes '
+         'after every attribute change is checked by the scan oracle on real transactions / reports (tested, not proved). '
+         'Known finding: the consumer does not re-index an updated descriptor (stale source / condition_signaled index).',
+    ref='5 C11')
 DRIVERS = ['drv_c11']
+RULE = ('one case = (index definitions, operation sequence) on a MultiKeyLookup, or one transaction / one delivered report '
+        'on a real MDIB; distinct = different canonical JSON; non-trivial = at least one accepted add followed by a further '
+        'operation on a non-empty table (exhaustive tier: every sequence of the enumerated alphabet is distinct by '
+        'construction and is counted per enumeration block)')
+TRUSTED = ['CPython set / dict / list.append / list.remove semantics; object identity modelled as a number',
+           'key values are hashable (a list of keys for a 1:n index contains hashable elements)',
+           'index definitions are added before the first object (as in all sdc11073 tables)',
+           'MDIB level (transactions / incoming reports re-index every changed object): scan oracle on generated histories, not a theorem']
+ASSUMPTIONS = ['key functions are pure attribute reads', 'single-threaded use of a table during one operation (callers hold the lock)']
 
+DRIVER_BIN = os.path.join(core.LEAN, '.lake', 'build', 'bin', 'drv_c11')
+MISSING = '__missing__'
+MDIB_FILES = ['/repo/tests/70041_MDIB_Final.xml', '/repo/tests/70041_MDIB_multi.xml', '/repo/tests/mdib_two_mds.xml']
+
+
+# ------------------------------------------------------------------------------------------------------------------
+# translator
 
 def real_tables():
     """name -> fresh instance of every MultiKeyLookup table the property names."""
@@ -44,3 +98,879 @@ def translate(ctx):
         lines.append('')
     lines.append('end Sdc.Generated')
     core.write_if_changed(core.GENERATED + '/IndexDefs.lean', '\n'.join(lines) + '\n')
+
+
+# ------------------------------------------------------------------------------------------------------------------
+# (i) MultiKeyLookup <-> model: values, interning, execution, dump
+
+class Obj:
+    """dummy object: identity hash / eq; attributes a0, a1, … are set and deleted by the `set` op"""
+
+    def __init__(self, n):
+        self.n = n
+
+    def __repr__(self):
+        return f'obj{self.n}'
+
+
+def dec(v):
+    """JSON value of a case -> python key-function result"""
+    if isinstance(v, dict):
+        return tuple(dec(x) for x in v['tuple'])
+    if isinstance(v, list):
+        return [dec(x) for x in v]
+    return v
+
+
+_CHAR = {'a': 21, 'b': 22, 'c': 23}
+
+
+def intern(k):
+    """hashable python key -> Nat of the model (0 = None)"""
+    if k is None:
+        return 0
+    if isinstance(k, int):
+        assert 1 <= k <= 9
+        return k
+    if isinstance(k, str):
+        if len(k) == 1:
+            return _CHAR[k]
+        return 2000 + int(''.join(str(_CHAR[c] - 20) for c in k))
+    if isinstance(k, tuple):
+        return 1000 + int('0' + ''.join(str(x) for x in k))
+    raise TypeError(k)
+
+
+def token(v):
+    """python key-function result (or MISSING) -> KeyRes token of the driver protocol"""
+    if isinstance(v, str) and v == MISSING:
+        return 'E'
+    if v is None:
+        return 'N'
+    if isinstance(v, int):
+        return f'o{v}'
+    if isinstance(v, (str, tuple)):
+        return f's{intern(v)}:' + ','.join(str(intern(x)) for x in v)
+    if isinstance(v, list):
+        return 'l' + ','.join(str(intern(x)) for x in v)
+    raise TypeError(v)
+
+
+def build_table(defs):
+    from sdc11073 import multikey
+    cls = {'m': multikey.IndexDefinition, 'u': multikey.UIndexDefinition, 'n': multikey.IndexDefinition1n}
+    t = multikey.MultiKeyLookup()
+    for j, (k, nn) in enumerate(defs):
+        t.add_index(f'i{j}', cls[k](lambda o, a=f'a{j}': getattr(o, a), index_none_values=bool(nn)))
+    return t, list(t._idx_defs.values())
+
+
+def py_dump(t, idxs, num):
+    parts = ['O:' + ','.join(map(str, sorted(num.get(id(o), 999) for o in t._objects)))]
+    pos = {}
+    for i, d in enumerate(idxs):
+        pos[id(d)] = i
+        items = sorted((intern(k), lst) for k, lst in dict.items(d))
+        parts.append(f'I{i}:' + '|'.join(f'{k}=' + ','.join(str(num.get(id(o), 999)) for o in lst) for k, lst in items))
+    refs = sorted((num.get(i, 999), r) for i, r in t._object_ids.items())
+    parts.append('R:' + '/'.join(f'{n}=' + ','.join(f'{pos.get(id(x.index_dict), "?")}.{intern(x.key)}' for x in r)
+                                 for n, r in refs))
+    return ' '.join(parts)
+
+
+def op_line(op):
+    k = op[0]
+    if k == 'set':
+        return f'set {op[1]} ' + ' '.join(token(dec(v)) for v in op[2])
+    if k in ('add', 'rm', 'upd'):
+        return f'{k} {op[1]}'
+    if k == 'clear':
+        return 'clear'
+    if k in ('addm', 'rmm', 'updm'):
+        return f'{k} ' + ' '.join(map(str, op[1]))
+    if k in ('get', 'has'):
+        return f'{k} {op[1]} {intern(dec(op[2]))}'
+    if k == 'one':
+        return f'one {op[1]} {intern(dec(op[2]))} {int(op[3])}'
+    raise ValueError(op)
+
+
+class Impl:
+    """the real table + the oracle bookkeeping of one case"""
+
+    def __init__(self, defs, nobj):
+        self.t, self.idxs = build_table(defs)
+        self.objs = {n: Obj(n) for n in range(1, nobj + 1)}
+        self.num = {id(o): n for n, o in self.objs.items()}
+        self.pending = set()       # objects whose attributes were written after their last accepted (re-)index
+        self.failures = []         # (signature, detail)
+
+    def stored(self):
+        return {self.num[id(o)] for o in self.t._objects if id(o) in self.num}
+
+    def _call(self, f, *a):
+        try:
+            f(*a)
+        except (KeyError, ValueError) as ex:
+            return 'err ' + type(ex).__name__
+        except Exception as ex:  # noqa: BLE001
+            return 'err ' + type(ex).__name__
+        return 'ok'
+
+    def execute(self, op, dump=True):
+        """run one op on the real table; returns the answer line the model has to give"""
+        k, t = op[0], self.t
+        if k == 'set':
+            o = self.objs[op[1]]
+            for j, v in enumerate(op[2]):
+                if isinstance(v, str) and v == MISSING:
+                    if hasattr(o, f'a{j}'):
+                        delattr(o, f'a{j}')
+                else:
+                    setattr(o, f'a{j}', dec(v))
+            self.pending.add(op[1])
+            res = 'ok'
+        elif k in ('add', 'rm', 'upd'):
+            o = self.objs[op[1]]
+            nolock = len(op) > 2 and op[2]
+            before = mk_oracle.table_dump(t)
+            was_stored = o in t._objects
+            meth = {'add': (t.add_object, t.add_object_no_lock), 'rm': (t.remove_object, t.remove_object_no_lock),
+                    'upd': (t.update_object, t.update_object_no_lock)}[k][1 if nolock else 0]
+            res = self._call(meth, o)
+            after = mk_oracle.table_dump(t)
+            if k == 'add':
+                if res != 'ok' and after != before:
+                    self.failures.append(('rejected-add-modifies-table',
+                                          f'add_object raised {res[4:]} and left the table changed: objects/indices/_object_ids before {_short(before, self.num)} after {_short(after, self.num)}'))
+                if res == 'ok' and not was_stored:
+                    self.pending.discard(op[1])
+            elif k == 'upd':
+                if res != 'ok' and not _same_content(before, after):
+                    self.failures.append(('rejected-update-modifies-table',
+                                          f'update_object raised {res[4:]} and changed the table content: before {_short(before, self.num)} after {_short(after, self.num)}'))
+                if res == 'ok':
+                    self.pending.discard(op[1])
+            elif k == 'rm' and res != 'ok':
+                self.failures.append(('remove-raises', f'remove_object raised {res[4:]}'))
+        elif k == 'clear':
+            res = self._call(t.clear)
+        elif k in ('addm', 'rmm', 'updm'):
+            objs = [self.objs[n] for n in op[1]]
+            nolock = len(op) > 2 and op[2]
+            before_stored = self.stored()
+            meth = {'addm': (t.add_objects, t.add_objects_no_lock), 'rmm': (t.remove_objects, t.remove_objects_no_lock),
+                    'updm': (t.update_objects, t.update_objects_no_lock)}[k][1 if nolock else 0]
+            res = self._call(meth, objs)
+            if k == 'addm':
+                self.pending -= (self.stored() - before_stored)
+            elif k == 'updm' and res == 'ok':
+                self.pending -= set(op[1])
+        elif k == 'get':
+            r = self.idxs[op[1]].get(dec(op[2]))
+            return 'none' if r is None else ','.join(str(self.num[id(o)]) for o in r)
+        elif k == 'has':
+            return 'true' if dec(op[2]) in self.idxs[op[1]] else 'false'
+        elif k == 'one':
+            try:
+                r = self.idxs[op[1]].get_one(dec(op[2]), allow_none=bool(op[3]))
+            except (KeyError, ValueError) as ex:
+                return 'err ' + type(ex).__name__
+            return 'ok none' if r is None else f'ok {self.num[id(r)]}'
+        else:
+            raise ValueError(op)
+        return res + ' ' + py_dump(t, self.idxs, self.num) if dump else res
+
+    def check_scan(self):
+        """the property's observable: lookups == scan (only meaningful when no stored object has unindexed writes)"""
+        if self.pending & self.stored():
+            return False
+        probs = mk_oracle.table_problems(self.t)
+        if probs:
+            self.failures.append(('lookup-disagrees-with-scan:multikey', '; '.join(probs[:4])))
+        return True
+
+
+def _short(d, num):
+    objs, idx, refs = d
+    return json.dumps({'objects': sorted(num.get(i, i) for i in objs),
+                       'indices': {n: {repr(k): [num.get(i, i) for i in l] for k, l in dd.items()} for n, dd in idx.items()},
+                       '_object_ids': sorted(num.get(i, i) for i in refs)})[:700]
+
+
+def _same_content(a, b):
+    """objects and _object_ids identical, every index list identical as a multiset"""
+    if a[0] != b[0] or a[2] != b[2] or a[1].keys() != b[1].keys():
+        return False
+    for n in a[1]:
+        if a[1][n].keys() != b[1][n].keys():
+            return False
+        for k in a[1][n]:
+            if Counter(a[1][n][k]) != Counter(b[1][n][k]):
+                return False
+    return True
+
+
+def run_case_impl(case, dump_last_only=False):
+    """-> (driver lines, expected answers (None = not compared), Impl)"""
+    impl = Impl(case['defs'], case['nobj'])
+    lines = ['defs ' + ' '.join(f'{k}{int(nn)}' for k, nn in case['defs'])]
+    exp = ['ok']
+    ops = case['ops']
+    for j, op in enumerate(ops):
+        mut = op[0] not in ('get', 'has', 'one')
+        quiet = dump_last_only and j < len(ops) - 1 and mut
+        exp.append(impl.execute(op, dump=not quiet))
+        lines.append(('. ' if quiet else '') + op_line(op))
+        if not dump_last_only or j == len(ops) - 1:
+            impl.check_scan()
+    return lines, exp, impl
+
+
+def drive(lines):
+    r = subprocess.run([DRIVER_BIN], input=('\n'.join(lines) + '\n').encode(), capture_output=True, timeout=3000)
+    if r.returncode != 0:
+        raise RuntimeError('drv_c11 failed: ' + r.stderr.decode()[:500])
+    out = r.stdout.decode().split('\n')
+    if out and out[-1] == '':
+        out.pop()
+    if len(out) != len(lines):
+        raise RuntimeError(f'drv_c11: {len(lines)} lines in, {len(out)} out')
+    return out
+
+
+# ---- random cases
+
+VALUES = [None, None, 1, 1, 2, 2, 3, MISSING, {'tuple': [1, 2]}, {'tuple': [1, 1]}, {'tuple': []}, 'a', 'ab', 'ba',
+          [1], [1, 2], [1, 1], [2, 1, 2], [], [2, 'a'], [{'tuple': [1, 2]}, 1]]
+KEYS = [None, 1, 2, 3, 'a', 'b', 'ab', {'tuple': [1, 2]}, {'tuple': [1, 1]}, {'tuple': []}]
+
+
+def gen_case(rng, max_ops=40):
+    nidx = rng.choice([1, 2, 2, 3, 3, 4])
+    defs = [[rng.choice('mmunun' if j else 'mun'), rng.randint(0, 1)] for j in range(nidx)]
+    if rng.random() < 0.3:
+        defs[rng.randrange(nidx)][0] = 'u'
+    nobj = rng.randint(2, 5)
+    vals = VALUES if rng.random() < 0.6 else [None, 1, 2, 1, 2, [1, 2], [1, 1], MISSING]
+    ops = []
+    n = rng.randint(3, max_ops)
+    disciplined = rng.random() < 0.6
+
+    def attrs():
+        return [rng.choice(vals) for _ in range(nidx)]
+    for o in range(1, nobj + 1):
+        if rng.random() < 0.8:
+            ops.append(['set', o, attrs()])
+    while len(ops) < n:
+        r = rng.random()
+        o = rng.randint(1, nobj)
+        nl = rng.random() < 0.5
+        if r < 0.22:
+            ops.append(['add', o, nl])
+        elif r < 0.32:
+            ops.append(['rm', o, nl])
+        elif r < 0.50:
+            ops.append(['set', o, attrs()])
+            if disciplined or rng.random() < 0.5:
+                ops.append(['upd', o, nl])
+        elif r < 0.58:
+            ops.append(['upd', o, nl])
+        elif r < 0.60:
+            ops.append(['clear'])
+        elif r < 0.66:
+            ops.append(['addm', [rng.randint(1, nobj) for _ in range(rng.randint(0, 4))], nl])
+        elif r < 0.70:
+            ops.append(['rmm', [rng.randint(1, nobj) for _ in range(rng.randint(0, 3))], nl])
+        elif r < 0.74:
+            ops.append(['updm', [rng.randint(1, nobj) for _ in range(rng.randint(0, 3))], nl])
+        elif r < 0.84:
+            ops.append(['get', rng.randrange(nidx), rng.choice(KEYS)])
+        elif r < 0.90:
+            ops.append(['has', rng.randrange(nidx), rng.choice(KEYS)])
+        else:
+            ops.append(['one', rng.randrange(nidx), rng.choice(KEYS), rng.randint(0, 1)])
+    return {'defs': defs, 'nobj': nobj, 'ops': ops}
+
+
+def _subrng(seed, *key):
+    h = hashlib.sha1(repr((seed,) + key).encode()).hexdigest()
+    return random.Random(int(h[:16], 16))
+
+
+def _compare(case, lines, exp, out, res, what):
+    for j, (e, o) in enumerate(zip(exp, out)):
+        if e != o:
+            if len(res['disagreements']) < 5:
+                res['disagreements'].append((what, {'defs': case['defs'], 'nobj': case['nobj'], 'ops': case['ops'][:j]},
+                                             f'line {lines[j]!r}: {o}', e))
+            res['ndis'] += 1
+            return False
+    return True
+
+
+def _new_res():
+    return {'n': 0, 'nontrivial': 0, 'hist': Counter(), 'disagreements': [], 'ndis': 0, 'failures': [], 'samples': [],
+            'canon': []}
+
+
+def _account(case, exp, impl, res, keep_canon):
+    res['n'] += 1
+    nt = False
+    seen_add = False
+    for op, e in zip(case['ops'], exp[1:]):
+        kind = op[0]
+        res['hist']['op:' + kind + ('_no_lock' if kind in ('add', 'rm', 'upd', 'addm', 'rmm', 'updm') and len(op) > 2 and op[2] else '')] += 1
+        if e.startswith('err '):
+            res['hist'][f'rejected:{kind}:{e.split()[1]}'] += 1
+        if seen_add and impl is not None:
+            nt = True
+        if kind in ('add', 'addm') and e.startswith('ok'):
+            seen_add = True
+    res['nontrivial'] += nt
+    if keep_canon:
+        res['canon'].append((hashlib.sha1(json.dumps(case, sort_keys=True).encode()).hexdigest()[:20], nt))
+    for sig, detail in impl.failures:
+        if len(res['failures']) < 6:
+            res['failures'].append((sig, detail, case))
+        res['hist']['oracle-failure:' + sig] += 1
+
+
+def task_random(args):
+    seed, chunk, n, max_ops, driver_ok = args
+    res = _new_res()
+    try:
+        rng = _subrng(seed, 'c11-random', chunk)
+        all_lines, metas = [], []
+        for _ in range(n):
+            case = gen_case(rng, max_ops)
+            lines, exp, impl = run_case_impl(case)
+            _account(case, exp, impl, res, keep_canon=True)
+            if len(res['samples']) < 1 and chunk == 0 and len(case['ops']) <= 12:
+                res['samples'].append({'defs': case['defs'], 'ops': case['ops'], 'impl_answers': exp[1:]})
+            metas.append((case, lines, exp, len(all_lines)))
+            all_lines.extend(lines)
+        if driver_ok:
+            out = drive(all_lines)
+            for case, lines, exp, off in metas:
+                _compare(case, lines, exp, out[off:off + len(lines)], res, 'random op sequence: answer + table dump after every op')
+    except Exception:  # noqa: BLE001
+        res['error'] = traceback.format_exc()[-1500:]
+    return res
+
+
+# ---- exhaustive small scope: 3 objects, keys {1, 2} (+None), every op sequence up to a length
+
+EXH_CONFIGS = {
+    # name: (defs, per object (attrs A, attrs B))
+    'multi+unique': ([['m', 1], ['u', 1]],
+                     {1: ([1, 1], [2, 2]), 2: ([2, 1], [1, 2]), 3: ([None, 2], [1, None])}),
+    'oneN+unique+multi': ([['n', 0], ['u', 0], ['m', 0]],
+                          {1: ([[1, 1], 1, None], [[1, 2], 2, 1]), 2: ([[2], 1, 1], [[1], [1], 2]),
+                           3: ([MISSING, None, {'tuple': [1, 2]}], [{'tuple': [1, 2]}, 2, [1]])}),
+    'unique+unique': ([['u', 1], ['u', 0]],
+                      {1: ([1, 1], [2, 2]), 2: ([2, 1], [1, 2]), 3: ([None, 1], [2, None])}),
+}
+EXH_ALPHABET = [(k, o) for o in (1, 2, 3) for k in ('add', 'rm', 'upd', 'flip')] + [('clear', 0)]
+
+
+def exh_case(cfg, seq, variant):
+    defs, attrs = EXH_CONFIGS[cfg]
+    ops = [['set', o, attrs[o][0]] for o in (1, 2, 3)]
+    side = {1: 0, 2: 0, 3: 0}
+    for a in seq:
+        k, o = EXH_ALPHABET[a]
+        if k == 'flip':
+            side[o] ^= 1
+            ops.append(['set', o, attrs[o][side[o]]])
+        elif k == 'clear':
+            ops.append(['clear'])
+        else:
+            ops.append([k, o, bool(variant)])
+    return {'defs': defs, 'nobj': 3, 'ops': ops}
+
+
+def task_exhaustive(args):
+    cfg, length, first, driver_ok = args
+    res = _new_res()
+    try:
+        all_lines, metas = [], []
+
+        def flush():
+            if driver_ok and all_lines:
+                out = drive(all_lines)
+                for case, lines, exp, off in metas:
+                    _compare(case, lines, exp, out[off:off + len(lines)], res,
+                             f'exhaustive {cfg}: answers of every op + table dump after the last op')
+            all_lines.clear()
+            metas.clear()
+        for k, rest in enumerate(itertools.product(range(len(EXH_ALPHABET)), repeat=length - 1)):
+            seq = (first, *rest)
+            case = exh_case(cfg, seq, k & 1)
+            lines, exp, impl = run_case_impl(case, dump_last_only=True)
+            _account(case, exp, impl, res, keep_canon=False)
+            metas.append((case, lines, exp, len(all_lines)))
+            all_lines.extend(lines)
+            if len(all_lines) > 400000:
+                flush()
+        flush()
+    except Exception:  # noqa: BLE001
+        res['error'] = traceback.format_exc()[-1500:]
+    return res
+
+
+def _merge(ctx, res, label, exhaustive_block=None):
+    if 'error' in res:
+        raise RuntimeError(f'{label}: worker failed: {res["error"]}')
+    for k, v in res['hist'].items():
+        ctx.count(k, v)
+    for what, case, model, impl in res['disagreements']:
+        ctx.disagree(what, case, model, impl)
+    if res['ndis'] > len(res['disagreements']):
+        ctx.count('disagreement:(more)', res['ndis'] - len(res['disagreements']))
+    for sig, detail, case in res['failures']:
+        ctx.fail(sig, detail, shrink(case, sig))
+    for s in res['samples']:
+        if len(ctx.samples) < ctx.max_samples:
+            ctx.samples.append(s)
+    keep = list(ctx.samples)
+    if exhaustive_block is not None:
+        ctx.case(exhaustive_block, nontrivial=res['nontrivial'] > 0)
+        ctx.evaluations += res['n'] - 1
+    else:
+        for h, nt in res['canon']:
+            ctx.case(h, nontrivial=nt)
+    ctx.samples = keep
+
+
+def case_fails(case, sig=None):
+    try:
+        _, _, impl = run_case_impl(case)
+    except Exception:  # noqa: BLE001
+        return False
+    return any(s == sig or sig is None for s, _ in impl.failures)
+
+
+def shrink(case, sig):
+    """greedy removal of ops while the same oracle failure remains"""
+    ops = list(case['ops'])
+    # cut behind the first failing op
+    for j in range(1, len(ops) + 1):
+        if case_fails({**case, 'ops': ops[:j]}, sig):
+            ops = ops[:j]
+            break
+    changed = True
+    while changed and len(ops) > 1:
+        changed = False
+        for j in range(len(ops) - 1):
+            cand = ops[:j] + ops[j + 1:]
+            if case_fails({**case, 'ops': cand}, sig):
+                ops, changed = cand, True
+                break
+    return {'kind': 'multikey', 'defs': case['defs'], 'nobj': case['nobj'], 'ops': ops}
+
+
+def run_multikey_part(ctx):
+    nrand = ctx.n(2000, 100000)
+    nchunks = ctx.n(8, 64)
+    tasks = [('random', (ctx.seed, c, nrand // nchunks, 40, ctx.driver_ok)) for c in range(nchunks)]
+    lengths = {'multi+unique': ctx.n(5, 6), 'oneN+unique+multi': ctx.n(4, 5), 'unique+unique': ctx.n(4, 6)}
+    for cfg, lmax in lengths.items():
+        for length in range(1, lmax + 1):
+            for first in range(len(EXH_ALPHABET)):
+                tasks.append(('exh', (cfg, length, first, ctx.driver_ok)))
+    # big tasks first
+    tasks.sort(key=lambda t: -(t[1][1] if t[0] == 'exh' else 3))
+    with multiprocessing.Pool(min(8, os.cpu_count() or 2)) as pool:
+        results = pool.map(_dispatch, tasks, chunksize=1)
+    nexh = 0
+    for (kind, args), res in zip(tasks, results):
+        if kind == 'random':
+            _merge(ctx, res, f'random chunk {args[1]}')
+        else:
+            nexh += res.get('n', 0)
+            _merge(ctx, res, f'exhaustive {args[:3]}', exhaustive_block={'exhaustive': args[0], 'length': args[1], 'first_op': EXH_ALPHABET[args[2]]})
+    ctx.exhaustive = True
+    ctx.notes['exhaustive_scope'] = {'configurations': {k: {'defs': v[0], 'max_length': lengths[k]} for k, v in EXH_CONFIGS.items()},
+                                     'alphabet': [f'{k}{o or ""}' for k, o in EXH_ALPHABET], 'sequences': nexh,
+                                     'note': 'every sequence over the alphabet up to max_length, 3 objects with 2 attribute assignments each (flip = attribute write without re-index)'}
+    ctx.notes['random_sequences'] = nrand
+
+
+def _dispatch(task):
+    return task_random(task[1]) if task[0] == 'random' else task_exhaustive(task[1])
+
+
+# ------------------------------------------------------------------------------------------------------------------
+# (ii) real MDIB tables: random provider transactions, scan oracle after each
+
+def _load_mdib(path):
+    import sdc11073.definitions_sdc  # noqa: F401
+    from sdc11073.mdib import ProviderMdib
+    return ProviderMdib.from_mdib_file(path)
+
+
+def gen_tx(rng, mdib, counter):
+    """one random transaction script (JSON) from the current content of the provider mdib"""
+    from sdc11073.xml_types import pm_qnames as q
+    d = mdib.descriptions
+    by_type = lambda *names: [x.Handle for n in names for x in (d.NODETYPE.get(getattr(q, n)) or [])]  # noqa: E731
+    metrics = by_type('NumericMetricDescriptor', 'StringMetricDescriptor', 'EnumStringMetricDescriptor')
+    conds = by_type('AlertConditionDescriptor', 'LimitAlertConditionDescriptor')
+    signals = by_type('AlertSignalDescriptor')
+    systems = by_type('AlertSystemDescriptor')
+    comps = by_type('ChannelDescriptor', 'VmdDescriptor', 'MdsDescriptor')
+    channels = by_type('ChannelDescriptor')
+    opers = by_type('SetValueOperationDescriptor', 'SetStringOperationDescriptor', 'ActivateOperationDescriptor',
+                    'SetContextStateOperationDescriptor', 'SetAlertStateOperationDescriptor')
+    rts = by_type('RealTimeSampleArrayMetricDescriptor')
+    ctxd = by_type('PatientContextDescriptor', 'LocationContextDescriptor')
+    added = [x.Handle for x in d.objects if x.Handle.startswith('verif.')]
+
+    def some(lst, lo=1, hi=3):
+        return rng.sample(lst, min(len(lst), rng.randint(lo, hi))) if lst else []
+    r = rng.random()
+    abort = rng.random() < 0.05
+    tx = None
+    if r < 0.15 and metrics:
+        tx = {'tx': 'metric', 'handles': some(metrics)}
+    elif r < 0.25 and (conds or signals or systems):
+        tx = {'tx': 'alert', 'handles': some(conds + signals + systems)}
+    elif r < 0.32 and comps:
+        tx = {'tx': 'component', 'handles': some(comps)}
+    elif r < 0.38 and opers:
+        tx = {'tx': 'operational', 'handles': some(opers)}
+    elif r < 0.42 and rts:
+        tx = {'tx': 'rt', 'handles': some(rts, 1, 2)}
+    elif r < 0.55 and ctxd:
+        existing = [s.Handle for s in mdib.context_states.objects]
+        if existing and rng.random() < 0.5:
+            tx = {'tx': 'context_update', 'handles': some(existing, 1, 2), 'assoc': rng.choice(['Assoc', 'Dis', 'No'])}
+        else:
+            tx = {'tx': 'context_new', 'descriptor': rng.choice(ctxd)}
+    else:
+        steps = []
+        for _ in range(rng.randint(1, 3)):
+            s = rng.random()
+            if s < 0.25 and conds:
+                src = some(metrics, 0, 3)
+                if src and rng.random() < 0.2:
+                    src.append(src[0])       # duplicate entry in the 1:n key list
+                steps.append({'do': 'update', 'handle': rng.choice(conds), 'set': {'Source': src}})
+            elif s < 0.45 and signals and conds:
+                steps.append({'do': 'update', 'handle': rng.choice(signals),
+                              'set': {'ConditionSignaled': rng.choice([*conds, None])}})
+            elif s < 0.55 and metrics and channels:
+                steps.append({'do': 'update', 'handle': rng.choice(metrics), 'set': {'parent_handle': rng.choice(channels)}})
+            elif s < 0.62 and (metrics or comps):
+                steps.append({'do': 'update', 'handle': rng.choice(metrics + comps), 'set': {}})
+            elif s < 0.80 and channels:
+                counter[0] += 1
+                kind = rng.choice(['NumericMetricDescriptor', 'AlertConditionDescriptor', 'AlertSignalDescriptor'])
+                parent = rng.choice(channels) if kind == 'NumericMetricDescriptor' else (rng.choice(systems) if systems else None)
+                if parent is not None:
+                    steps.append({'do': 'add', 'kind': kind, 'handle': f'verif.{counter[0]}' if rng.random() < 0.9 else rng.choice(metrics or ['x']),
+                                  'parent': parent, 'with_state': rng.random() < 0.8,
+                                  'set': ({'Source': some(metrics, 0, 2)} if kind == 'AlertConditionDescriptor' else
+                                          {'ConditionSignaled': rng.choice([*conds, None])} if kind == 'AlertSignalDescriptor' and conds else {})})
+            elif s < 0.95 and added:
+                steps.append({'do': 'remove', 'handle': rng.choice(added)})
+            elif channels and rng.random() < 0.3:
+                steps.append({'do': 'remove', 'handle': rng.choice(channels)})
+        tx = {'tx': 'descriptor', 'steps': steps}
+    tx['abort'] = abort
+    return tx
+
+
+class _Abort(Exception):
+    pass
+
+
+def run_tx(mdib, tx):
+    """execute one transaction script on the real provider mdib; exceptions of the API are part of the history"""
+    from sdc11073.xml_types import pm_qnames as q
+    from sdc11073.xml_types import pm_types
+    try:
+        kind = tx['tx']
+        if kind in ('metric', 'alert', 'component', 'operational', 'rt'):
+            with getattr(mdib, {'rt': 'rt_sample_state_transaction'}.get(kind, kind + '_state_transaction'))() as tr:
+                for h in tx['handles']:
+                    st = tr.get_state(h)
+                    if kind == 'operational':
+                        st.OperatingMode = pm_types.OperatingMode.DISABLED if st.OperatingMode != pm_types.OperatingMode.DISABLED else pm_types.OperatingMode.ENABLED
+                    elif kind == 'alert':
+                        st.ActivationState = pm_types.AlertActivation.OFF if st.ActivationState != pm_types.AlertActivation.OFF else pm_types.AlertActivation.ON
+                    else:
+                        st.ActivationState = pm_types.ComponentActivation.OFF if st.ActivationState != pm_types.ComponentActivation.OFF else pm_types.ComponentActivation.ON
+                if tx['abort']:
+                    raise _Abort
+        elif kind == 'context_new':
+            with mdib.context_state_transaction() as tr:
+                st = tr.mk_context_state(tx['descriptor'], set_associated=True)
+                if tx['abort']:
+                    raise _Abort
+        elif kind == 'context_update':
+            with mdib.context_state_transaction() as tr:
+                for h in tx['handles']:
+                    st = tr.get_context_state(h)
+                    st.ContextAssociation = pm_types.ContextAssociation(tx['assoc'])
+                if tx['abort']:
+                    raise _Abort
+        elif kind == 'descriptor':
+            with mdib.descriptor_transaction() as tr:
+                for s in tx['steps']:
+                    if s['do'] == 'update':
+                        dc = tr.get_descriptor(s['handle'])
+                        for a, v in s['set'].items():
+                            setattr(dc, a, v)
+                    elif s['do'] == 'add':
+                        parent = mdib.descriptions.handle.get_one(s['parent'])
+                        dc = mdib.data_model.mk_descriptor_container(getattr(q, s['kind']), handle=s['handle'], parent_descriptor=parent)
+                        for a, v in s['set'].items():
+                            setattr(dc, a, v)
+                        if s['kind'] == 'NumericMetricDescriptor':
+                            dc.Resolution = Decimal(1)
+                            dc.MetricCategory = pm_types.MetricCategory.MEASUREMENT
+                            dc.MetricAvailability = pm_types.MetricAvailability.CONTINUOUS
+                            dc.Unit = pm_types.CodedValue('1234')
+                        elif s['kind'] == 'AlertSignalDescriptor':
+                            dc.Manifestation = pm_types.AlertSignalManifestation.AUD
+                            dc.Latching = False
+                        else:
+                            dc.Kind = pm_types.AlertConditionKind.OTHER
+                            dc.Priority = pm_types.AlertConditionPriority.NONE
+                        dc.Type = pm_types.CodedValue('5678')
+                        st = mdib.data_model.mk_state_container(dc) if s['with_state'] else None
+                        tr.add_descriptor(dc, state_container=st)
+                    elif s['do'] == 'remove':
+                        tr.remove_descriptor(s['handle'])
+                if tx['abort']:
+                    raise _Abort
+        return 'ok'
+    except _Abort:
+        return 'abort'
+    except Exception as ex:  # noqa: BLE001
+        LAST_ERROR[0] = traceback.format_exc()
+        return 'err ' + type(ex).__name__
+
+
+LAST_ERROR = [None]
+
+
+def _mdib_findings(mdib, side):
+    """[(signature, message)] of the scan oracle on the three tables; signature names side, table and index"""
+    return [(f'lookup-disagrees-with-scan:{side}:{where}', f'{side}:{msg}') for where, msg in mk_oracle.mdib_problem_items(mdib)]
+
+
+def run_provider_part(ctx):
+    import logging
+    logging.disable(logging.CRITICAL)
+    for fi, path in enumerate(MDIB_FILES):
+        if not os.path.exists(path):
+            continue
+        for rep in range(ctx.n(2, 10)):
+            rng = ctx.subrng('provider', os.path.basename(path), rep)
+            mdib = _load_mdib(path)
+            for sig, p in _mdib_findings(mdib, 'provider'):
+                ctx.fail(sig, p, {'kind': 'provider', 'file': path, 'txs': []})
+            counter = [0]
+            script = []
+            for _ in range(ctx.n(40, 150)):
+                tx = gen_tx(rng, mdib, counter)
+                script.append(tx)
+                res = run_tx(mdib, tx)
+                ctx.count(f'provider-tx:{tx["tx"]}:{res}')
+                if tx['tx'] == 'descriptor':
+                    for s in tx['steps']:
+                        ctx.count('provider-descr-step:' + s['do'] + (':' + ','.join(sorted(s.get('set', {}))) if s.get('set') else ''))
+                probs = _mdib_findings(mdib, 'provider')
+                ctx.case({'file': fi, 'rep': rep, 'n': len(script), 'tx': tx}, nontrivial=res == 'ok',
+                         sample={'file': os.path.basename(path), 'tx': tx, 'result': res, 'table_problems': [p for _, p in probs]} if (fi, rep, len(script)) == (0, 0, 3) else None)
+                if probs:
+                    ctx.fail(probs[0][0], '; '.join(p for _, p in probs[:4]), {'kind': 'provider', 'file': path, 'txs': list(script)})
+                    break
+
+
+def run_real_tables_part(ctx):
+    """rejected insertion on the real table classes with real containers (duplicate handle)"""
+    mdib = _load_mdib(MDIB_FILES[0])
+    rng = ctx.subrng('real-tables')
+    for name, table, objs in (('descriptions', mdib.descriptions, list(mdib.descriptions.objects)),
+                              ('states', mdib.states, list(mdib.states.objects)),
+                              ('context_states', mdib.context_states, list(mdib.context_states.objects))):
+        for o in rng.sample(objs, min(len(objs), ctx.n(10, 60))):
+            dup = o.mk_copy()
+            before = mk_oracle.table_dump(table)
+            try:
+                (table.add_object if rng.random() < 0.5 else table.add_object_no_lock)(dup)
+                res = 'ok'
+            except Exception as ex:  # noqa: BLE001
+                res = type(ex).__name__
+            after = mk_oracle.table_dump(table)
+            ctx.count(f'real-table-duplicate-add:{name}:{res}')
+            ctx.case({'real-table': name, 'dup': getattr(o, 'Handle', None) or o.DescriptorHandle}, nontrivial=True)
+            if res != 'ok' and before != after:
+                ctx.fail('rejected-add-modifies-table', f'{name}.add_object(copy of {mk_oracle._label(o)}) raised {res} and changed the table',
+                         {'kind': 'real-table', 'table': name, 'handle': getattr(o, 'Handle', None) or o.DescriptorHandle})
+            probs = mk_oracle.table_problem_items(table)
+            if probs:
+                ctx.fail(f'lookup-disagrees-with-scan:provider:{name}.{probs[0][0]}', '; '.join(p for _, p in probs[:3]),
+                         {'kind': 'real-table', 'table': name, 'handle': getattr(o, 'Handle', None) or o.DescriptorHandle})
+            if res == 'ok':
+                table.remove_object(dup)
+
+
+def run_consumer_part(ctx, script=None, path=None):
+    """provider transactions -> reports -> consumer (harness/loopback.py); scan oracle on both sides after each report.
+    Returns the list of (signature, detail) found (used by replay)."""
+    try:
+        import loopback as lb
+    except Exception as ex:  # noqa: BLE001
+        ctx.notes['consumer_part'] = f'skipped: harness/loopback.py not importable ({ex!r})'
+        return []
+    lb.quiet()
+    found = []
+    path = path or MDIB_FILES[0]
+    prov = cons = None
+    try:
+        prov = lb.Provider(mdib_path=path)
+        cons = lb.Consumer(prov)
+        for name, mgr in prov.device._subscriptions_managers.items():  # noqa: SLF001
+            for p in mk_oracle.table_problems(mgr._subscriptions, f'subscriptions:{name}'):  # noqa: SLF001
+                ctx.fail('lookup-disagrees-with-scan:subscriptions', p, {'kind': 'subscriptions', 'when': 'after subscribe'})
+            ctx.count('subscription-table-checked', 1)
+            ctx.count('subscription-table-objects', len(mgr._subscriptions.objects))  # noqa: SLF001
+        prov.take_wire()
+        rng = ctx.subrng('consumer', os.path.basename(path))
+        counter = [0]
+        txs = []
+        todo = script if script is not None else range(ctx.n(60, 400))
+        for item in todo:
+            with prov.mdib.mdib_lock:
+                tx = item if script is not None else gen_tx(rng, prov.mdib, counter)
+            txs.append(tx)
+            res = run_tx(prov.mdib, tx)
+            ctx.count(f'loopback-tx:{tx["tx"]}:{res}')
+            pp = _mdib_findings(prov.mdib, 'provider')
+            if pp:
+                found.append((pp[0][0], '; '.join(p for _, p in pp[:4])))
+                ctx.fail(found[-1][0], found[-1][1], {'kind': 'loopback', 'file': path, 'txs': list(txs)})
+                break
+            for w in prov.take_wire():
+                try:
+                    cons.deliver(w)
+                    dres = 'ok'
+                except Exception as ex:  # noqa: BLE001
+                    dres = 'err ' + type(ex).__name__
+                ctx.count(f'consumer-report:{w.short}:{dres}')
+                with cons.mdib.mdib_lock:
+                    cp = _mdib_findings(cons.mdib, 'consumer')
+                ctx.case({'loopback': os.path.basename(path), 'n': len(txs), 'report': w.short, 'v': w.mdib_version}, nontrivial=True,
+                         sample={'tx': tx, 'report': w.short, 'consumer_table_problems': [p for _, p in cp]} if len(txs) == 2 else None)
+                for sig, p in cp:
+                    if sig not in {s for s, _ in found}:     # stale entries stay for the rest of the run: report once
+                        found.append((sig, p))
+                        ctx.fail(sig, p, {'kind': 'loopback', 'file': path, 'txs': list(txs)})
+        for name, mgr in prov.device._subscriptions_managers.items():  # noqa: SLF001
+            for p in mk_oracle.table_problems(mgr._subscriptions, f'subscriptions:{name}'):  # noqa: SLF001
+                ctx.fail('lookup-disagrees-with-scan:subscriptions', p, {'kind': 'subscriptions', 'when': 'end of run'})
+        cons.stop()
+        cons = None
+        for name, mgr in prov.device._subscriptions_managers.items():  # noqa: SLF001
+            for p in mk_oracle.table_problems(mgr._subscriptions, f'subscriptions:{name}'):  # noqa: SLF001
+                ctx.fail('lookup-disagrees-with-scan:subscriptions', p, {'kind': 'subscriptions', 'when': 'after unsubscribe'})
+            ctx.count('subscription-table-objects-after-unsubscribe', len(mgr._subscriptions.objects))  # noqa: SLF001
+    finally:
+        for x in (cons, prov):
+            try:
+                if x is not None:
+                    x.stop()
+            except Exception:  # noqa: BLE001
+                pass
+    return found
+
+
+# ------------------------------------------------------------------------------------------------------------------
+
+def run(ctx):
+    corpus = os.path.join(core.VERIF, 'corpus', 'C11')
+    if os.path.isdir(corpus):
+        for f in sorted(os.listdir(corpus)):
+            if f.endswith('.json'):
+                obj = json.load(open(os.path.join(corpus, f)))
+                case = obj.get('case', obj)
+                if case.get('kind') == 'multikey':
+                    lines, exp, impl = run_case_impl(case)
+                    ctx.case(case, nontrivial=True)
+                    for sig, detail in impl.failures:
+                        ctx.fail(sig, detail, case)
+                    if ctx.driver_ok:
+                        out = drive(lines)
+                        res = _new_res()
+                        _compare(case, lines, exp, out, res, 'corpus case')
+                        for what, c, m, i in res['disagreements']:
+                            ctx.disagree(what, c, m, i)
+    run_multikey_part(ctx)
+    run_real_tables_part(ctx)
+    run_provider_part(ctx)
+    run_consumer_part(ctx)
+
+
+def search(ctx):
+    """deeper failing-input search with the oracles only (no model): more and longer random sequences"""
+    for c in range(40):
+        rng = ctx.subrng('search', c)
+        for _ in range(500):
+            case = gen_case(rng, 60)
+            _, _, impl = run_case_impl(case)
+            if impl.failures:
+                sig, detail = impl.failures[0]
+                ctx.fail(sig, detail, shrink(case, sig))
+                return
+    for cfg in EXH_CONFIGS:
+        for length in range(1, 5):
+            for seq in itertools.product(range(len(EXH_ALPHABET)), repeat=length):
+                case = exh_case(cfg, seq, 0)
+                _, _, impl = run_case_impl(case)
+                if impl.failures:
+                    sig, detail = impl.failures[0]
+                    ctx.fail(sig, detail, shrink(case, sig))
+                    return
+
+
+def replay(ctx, obj):
+    case = obj['case']
+    kind = case.get('kind')
+    sig = obj.get('signature')
+    if kind == 'multikey':
+        _, exp, impl = run_case_impl(case)
+        for op, e in zip(case['ops'], exp[1:]):
+            print(op, '->', e)
+        for s, d in impl.failures:
+            print('ORACLE', s, d)
+        return any(s == sig for s, _ in impl.failures)
+    if kind == 'provider':
+        mdib = _load_mdib(case['file'])
+        for tx in case['txs']:
+            print(tx, '->', run_tx(mdib, tx))
+        probs = mk_oracle.mdib_problems(mdib, 'provider')
+        print('\n'.join(probs))
+        return bool(probs)
+    if kind == 'real-table':
+        mdib = _load_mdib(MDIB_FILES[0])
+        table = getattr(mdib, case['table'])
+        idx = table.handle if case['table'] != 'states' else table.descriptor_handle
+        o = idx.get_one(case['handle'])
+        before = mk_oracle.table_dump(table)
+        try:
+            table.add_object(o.mk_copy())
+            return False
+        except Exception as ex:  # noqa: BLE001
+            print('raised', type(ex).__name__)
+        return before != mk_oracle.table_dump(table) or bool(mk_oracle.table_problems(table))
+    if kind == 'loopback':
+        found = run_consumer_part(ctx, script=case['txs'], path=case['file'])
+        for s, d in found:
+            print('ORACLE', s, d)
+        return any(s == sig for s, _ in found)
+    return False
